@@ -33,12 +33,18 @@ theorem clipBelow0_eq_max (x : K) : clipBelow0 x = max x 0 := by
   · exact (max_eq_right h.le).symm
   · exact (max_eq_left (not_lt.mp h)).symm
 
+/-- the value handed to the cast, in closed form, for an arbitrary ADC ceiling -/
+theorem exposePreCap_eq (cap : Int) (img t dc dcnu prnu bias fwc gain : K) :
+    exposePreCap cap img t dc dcnu prnu bias fwc gain
+      = min (max (min ((img * t + dc * t * dcnu) * prnu + bias) fwc / gain) 0) ((cap : Int) : K) := by
+  simp only [exposePreCap, clipAbove_eq_min, clipBelow0_eq_max, ofInt_eq, Int.cast_zero, Int.cast_one, add_zero, one_div,
+    div_eq_mul_inv, one_mul]
+
 /-- the value handed to the cast, in closed form -/
 theorem exposePre_eq (img t dc dcnu prnu bias fwc gain : K) (bits : Int) :
     exposePre img t dc dcnu prnu bias fwc gain bits
-      = min (max (min ((img * t + dc * t * dcnu) * prnu + bias) fwc / gain) 0) ((adcCap bits : Int) : K) := by
-  simp only [exposePre, exposePreCap, clipAbove_eq_min, clipBelow0_eq_max, ofInt_eq, Int.cast_zero, Int.cast_one, add_zero, one_div,
-    div_eq_mul_inv, one_mul]
+      = min (max (min ((img * t + dc * t * dcnu) * prnu + bias) fwc / gain) 0) ((adcCap bits : Int) : K) :=
+  exposePreCap_eq _ _ _ _ _ _ _ _ _
 
 theorem adcCap_nonneg (bits : Int) : 0 ≤ adcCap bits := by
   unfold adcCap
